@@ -487,6 +487,8 @@ def mon_C07(case):
                 if ps is None or ps["deleted"]:
                     if s["deleted"]:
                         continue
+                    if ps is not None and who == u and s["given"] != ps["given"]:
+                        out.append((i, f"C07 {u} unsubscribed from {t} holding the grant {ps['given']} and got {s['given']} by subscribing again"))
                     # a new (or re-created) subscription
                     if who != u and not (has(amode, "S") or has(amode, "A") or has(amode, "O")):
                         out.append((i, f"C07 {who} (mode {amode or 'none'}) subscribed {u} to {t}"))
